@@ -14,6 +14,9 @@ def run(ctx):
         ops_array.case_field_edits(ctx, s, malformed=(i % 5 == 0))
         if i % 2 == 0:
             ops_frame.case_frame_field_assign(ctx, s)
+        if i % 3 == 0:
+            # a field selection is a new column: editing it in place leaves its source as it was, and vice versa
+            ops_array.case_result_is_new_sequence(ctx, s, only="view_")
         if i % 6 == 0:
             # as many records as rows, but not one per row (2, missing, 0, 3, 0 …): a flat Series then has the
             # frame's length although it is not aligned with the frame
